@@ -10,7 +10,7 @@ CHECK = {
     ],
     "tests": [
         T("sizeclass", "TestC07ChoicesWellFormed",
-          {"checks": 30000, "shards": 2, "timeout": 300},
+          {"checks": 25000, "shards": 2, "timeout": 300},
           {"checks": 300000, "shards": 8, "timeout": 1500}),
         T("sizeclass", "TestC07StatsPersistence",
           {"checks": 6000, "shards": 2, "timeout": 300, "steps": 40},
